@@ -25,9 +25,13 @@ CVC5_TIMEOUT_MS = int(os.environ.get("PYVC_CVC5_TIMEOUT_MS", "8000"))
 # The budgets that DECIDE a verdict are deterministic resource counters (z3 rlimit, cvc5 --rlimit), not
 # wall-clock time: a loaded machine makes a check slower, never different.  WALL_GUARD_MS only stops a
 # solver that hangs outside its resource accounting.
-Z3_RLIMIT = int(os.environ.get("PYVC_Z3_RLIMIT", "0"))
-Z3_RLIMIT_MBQI = int(os.environ.get("PYVC_Z3_RLIMIT_MBQI", "0"))
-WALL_GUARD_MS = int(os.environ.get("PYVC_WALL_GUARD_MS", str(Z3_TIMEOUT_MS // 2)))
+Z3_RLIMIT = int(os.environ.get("PYVC_Z3_RLIMIT", "30000000"))  # ~10-25 s of one core
+Z3_RLIMIT_MBQI = int(os.environ.get("PYVC_Z3_RLIMIT_MBQI", "12000000"))
+CVC5_RLIMIT = int(os.environ.get("PYVC_CVC5_RLIMIT", "4000000"))  # ~10 s of one core
+Z3_OLD_RLIMIT = int(os.environ.get("PYVC_Z3_OLD_RLIMIT", "20000000"))
+WALL_GUARD_MS = int(os.environ.get("PYVC_WALL_GUARD_MS", "900000"))
+CANARY_RLIMIT = 4000000
+LOW_BUDGET_DIV = 6  # obligations named by a recorded known finding are expected to stay open: smaller budget
 
 
 @dataclass
@@ -240,11 +244,12 @@ def _solve_one(args):
 def _solve_z3_then_cli(idx, text, t0):
     # 1. z3 5.x default (proof search: e-matching + MBQI); 2. z3 5.x with e-matching off, which makes
     # MBQI find counter-models of quantified path conditions that the default strategy loops on.
-    for backend, opts, tmo in (("z3-5.1", {}, Z3_TIMEOUT_MS // 2),
-                               ("z3-5.1-mbqi", {"smt.ematching": False}, Z3_TIMEOUT_MS // 2)):
+    for backend, opts, rl in (("z3-5.1", {}, Z3_RLIMIT),
+                              ("z3-5.1-mbqi", {"smt.ematching": False}, Z3_RLIMIT_MBQI)):
         try:
             s = z3.Solver()
-            s.set("timeout", tmo)
+            s.set("timeout", WALL_GUARD_MS)
+            s.set("rlimit", rl)
             for k2, v2 in opts.items():
                 s.set(k2, v2)
             s.from_string(text)
@@ -263,27 +268,42 @@ def _solve_z3_then_cli(idx, text, t0):
     return _solve_cli(idx, text, t0)
 
 
-def _solve_cli(idx, text, t0):
-    # cvc5, then z3 4.8, on the same SMT-LIB text
+def _run_cli(cmd, fn):
+    try:
+        out = subprocess.run(cmd + [fn], capture_output=True, text=True, timeout=WALL_GUARD_MS / 1000).stdout
+    except Exception:
+        return ""
+    return out.strip().splitlines()[0] if out.strip() else ""
+
+
+def _solve_cvc5(text):
     with tempfile.NamedTemporaryFile("w", suffix=".smt2", delete=False) as f:
         f.write(text)
         fn = f.name
     try:
-        for backend, cmd in (
-            ("cvc5-1.0", ["/usr/bin/cvc5", "--strings-exp", f"--tlimit={CVC5_TIMEOUT_MS}", fn]),
-            ("z3-4.8", ["/usr/bin/z3", f"-T:{max(2, Z3_TIMEOUT_MS // 4000)}", fn]),
-        ):
-            try:
-                out = subprocess.run(cmd, capture_output=True, text=True, timeout=CVC5_TIMEOUT_MS / 1000 + 5).stdout
-            except Exception:
-                continue
-            first = out.strip().splitlines()[0] if out.strip() else ""
-            if first == "unsat":
-                return idx, "discharged", backend, (time.time() - t0) * 1000, ""
-            if first == "sat":
-                return idx, "failed", backend, (time.time() - t0) * 1000, "(model from CLI backend not extracted)"
+        return _run_cli(["/usr/bin/cvc5", "--strings-exp", f"--rlimit={CVC5_RLIMIT}"], fn)
     finally:
         os.unlink(fn)
+
+
+def _solve_z3_old(text):
+    with tempfile.NamedTemporaryFile("w", suffix=".smt2", delete=False) as f:
+        f.write(text)
+        fn = f.name
+    try:
+        return _run_cli(["/usr/bin/z3", f"rlimit={Z3_OLD_RLIMIT}"], fn)
+    finally:
+        os.unlink(fn)
+
+
+def _solve_cli(idx, text, t0):
+    # cvc5, then z3 4.8, on the same SMT-LIB text (resource-limited, see Z3_RLIMIT)
+    for backend, fnc in (("cvc5-1.0", _solve_cvc5), ("z3-4.8", _solve_z3_old)):
+        first = fnc(text)
+        if first == "unsat":
+            return idx, "discharged", backend, (time.time() - t0) * 1000, ""
+        if first == "sat":
+            return idx, "failed", backend, (time.time() - t0) * 1000, "(model from CLI backend not extracted)"
     return idx, "unknown", "", (time.time() - t0) * 1000, ""
 
 
@@ -301,6 +321,14 @@ def _rlimit_of(s):
     return 0
 
 
+def _rlimit_now():
+    """z3's resource counter is cumulative per context; a trivial query reads its current value."""
+    p = z3.Solver()
+    p.add(z3.Bool("p!probe"))
+    p.check()
+    return _rlimit_of(p)
+
+
 def _check_goal(base_pc, goal, opts, tmo, rlimit=0):
     """One z3 query.  The budget that decides the verdict is `rlimit` (z3's deterministic resource
     counter), so that the verdict does not depend on machine load; `tmo` is only a wall-clock guard."""
@@ -313,8 +341,9 @@ def _check_goal(base_pc, goal, opts, tmo, rlimit=0):
     s.add(*GLOBAL_AXIOMS)
     s.add(*base_pc)
     s.add(z3.Not(goal))
+    before = _rlimit_now()
     r = s.check()
-    _check_goal.last_rlimit = _rlimit_of(s)
+    _check_goal.last_rlimit = _rlimit_of(s) - before
     _check_goal.last_reason = s.reason_unknown() if r == z3.unknown else ""
     if r == z3.sat:
         try:
@@ -332,34 +361,44 @@ def _solve_group(idxs):
         ob = _POOL_OBS[idx]
         t0 = time.time()
         if ob.kind == "canary":
-            st, _ = _check_goal(ob.pc, ob.goal, {}, 3000)
+            st, _ = _check_goal(ob.pc, ob.goal, {}, WALL_GUARD_MS, CANARY_RLIMIT)
             out.append((idx, st, "z3-5.1", (time.time() - t0) * 1000, "", 0))
             continue
-        done = False
         used = 0
         reasons = []
-        for backend, opts, rl in (("z3-5.1", {}, Z3_RLIMIT),
-                                  ("z3-5.1-mbqi", {"smt.ematching": False}, Z3_RLIMIT_MBQI)):
+        text = None
+        res = None
+        for backend in ("z3-5.1", "cvc5-1.0", "z3-5.1-mbqi", "z3-4.8"):
+            st, mt = "unknown", ""
             try:
-                st, mt = _check_goal(ob.pc, ob.goal, opts, WALL_GUARD_MS, rl)
-                used = max(used, getattr(_check_goal, "last_rlimit", 0))
-                if st == "unknown":
-                    reasons.append(f"{backend}: {getattr(_check_goal, 'last_reason', '')}")
+                div = LOW_BUDGET_DIV if getattr(ob, "low_budget", False) else 1
+                if backend == "z3-5.1":
+                    st, mt = _check_goal(ob.pc, ob.goal, {}, WALL_GUARD_MS, Z3_RLIMIT // div)
+                elif backend == "z3-5.1-mbqi":
+                    st, mt = _check_goal(ob.pc, ob.goal, {"smt.ematching": False}, WALL_GUARD_MS, Z3_RLIMIT_MBQI // div)
+                elif div > 1 and backend == "z3-4.8":
+                    continue
+                else:
+                    text = text or to_smt2(ob)
+                    first = _solve_cvc5(text) if backend == "cvc5-1.0" else _solve_z3_old(text)
+                    st = "discharged" if first == "unsat" else "failed" if first == "sat" else "unknown"
+                    mt = "(model from CLI backend not extracted)" if st == "failed" else ""
+                    if st == "unknown":
+                        reasons.append(f"{backend}: {first or 'no answer'}")
+                if backend.startswith("z3-5.1"):
+                    used = max(used, getattr(_check_goal, "last_rlimit", 0))
+                    if st == "unknown":
+                        reasons.append(f"{backend}: {getattr(_check_goal, 'last_reason', '')}")
             except z3.Z3Exception as e:
-                st, mt = "unknown", str(e)
                 reasons.append(f"{backend}: {e}")
             if st != "unknown":
-                out.append((idx, st, backend, (time.time() - t0) * 1000, mt, used))
-                done = True
+                res = (idx, st, backend, (time.time() - t0) * 1000, mt, used)
                 break
-        if done:
-            continue
-        r = _solve_one((idx, to_smt2(ob), True, True))
-        out.append((idx, r[1], r[2], (time.time() - t0) * 1000, r[4] or ("; ".join(reasons) if r[1] == "unknown" else ""), used))
+        out.append(res or (idx, "unknown", "", (time.time() - t0) * 1000, "; ".join(reasons), used))
     return out
 
 
-def discharge(obligations: List[Obligation], procs: int = 0):
+def discharge(obligations: List[Obligation], procs: int = 0, low_budget=None):
     """Discharge all obligations (in place): z3 5.x (default, then MBQI-only) in forked workers,
     then cvc5 and z3 4.8 on the SMT-LIB text for whatever is still unknown."""
     global _POOL_OBS
@@ -377,6 +416,9 @@ def discharge(obligations: List[Obligation], procs: int = 0):
             tasks.append(idxs[k:k + 12])
     if not tasks:
         return
+    if low_budget:
+        for ob in obligations:
+            ob.low_budget = bool(low_budget(ob.name))
     _POOL_OBS = obligations
     if procs == 1 or len(tasks) < 2:
         results = [_solve_group(t) for t in tasks]
